@@ -331,6 +331,15 @@ EffectOfSettings ==
                                     ELSE "NotFilteredNotFound"))
                 /\ ReasonFits(o.reason, q, o)
 
+\* The two modules that look at the registry agree on whom a request belongs
+\* to, as far as the ignore switches can tell (ClientsCore attributes for the
+\* settings, IgnoreAnonCore for the log and the statistics).
+AttributionsAgree ==
+    nq = 0 => \A q \in Queries :
+        \E c \in {Who(S.reg, q.cid, q.addr)}, ic \in {IACfg(S)} :
+            /\ IA!IgnoredClientQ(ic, IAQ(q)) = (Known(c) /\ c.ignQ)
+            /\ IA!IgnoredClientS(ic, IAQ(q)) = (Known(c) /\ c.ignS)
+
 \* The view of the log never shows more than was written and never hides an
 \* entry whose name and client are not ignored now.
 ViewSound ==
